@@ -218,7 +218,7 @@ func (p *processor) process(in ion.Reader) error {
 		p.idx++
 		name, e := in.FieldName()
 		if e != nil {
-			return p.error(read, err)
+			return p.error(read, e)
 		}
 		if name != nil {
 			if err = p.out.FieldName(*name); err != nil {
@@ -236,42 +236,50 @@ func (p *processor) process(in ion.Reader) error {
 			}
 		}
 
+		// A typed null has no value to copy: the accessors return nil for it.
+		if in.IsNull() && in.Type() != ion.NullType {
+			if err = p.out.WriteNullType(in.Type()); err != nil {
+				return p.error(write, err)
+			}
+			continue
+		}
+
 		switch in.Type() {
 		case ion.NullType:
 			err = p.out.WriteNull()
 
 		case ion.BoolType:
-			val, err := in.BoolValue()
-			if err != nil {
-				return p.error(read, err)
+			val, rerr := in.BoolValue()
+			if rerr != nil {
+				return p.error(read, rerr)
 			}
 			err = p.out.WriteBool(*val)
 
 		case ion.IntType:
-			size, err := in.IntSize()
-			if err != nil {
-				return p.error(read, err)
+			size, rerr := in.IntSize()
+			if rerr != nil {
+				return p.error(read, rerr)
 			}
 
 			switch size {
 			case ion.Int32:
-				val, err := in.IntValue()
-				if err != nil {
-					return p.error(read, err)
+				val, rerr := in.IntValue()
+				if rerr != nil {
+					return p.error(read, rerr)
 				}
 				err = p.out.WriteInt(int64(*val))
 
 			case ion.Int64:
-				val, err := in.Int64Value()
-				if err != nil {
-					return p.error(read, err)
+				val, rerr := in.Int64Value()
+				if rerr != nil {
+					return p.error(read, rerr)
 				}
 				err = p.out.WriteInt(*val)
 
 			case ion.BigInt:
-				val, err := in.BigIntValue()
-				if err != nil {
-					return p.error(read, err)
+				val, rerr := in.BigIntValue()
+				if rerr != nil {
+					return p.error(read, rerr)
 				}
 				err = p.out.WriteBigInt(val)
 
@@ -280,55 +288,55 @@ func (p *processor) process(in ion.Reader) error {
 			}
 
 		case ion.FloatType:
-			val, err := in.FloatValue()
-			if err != nil {
-				return p.error(read, err)
+			val, rerr := in.FloatValue()
+			if rerr != nil {
+				return p.error(read, rerr)
 			}
 			err = p.out.WriteFloat(*val)
 
 		case ion.DecimalType:
-			val, err := in.DecimalValue()
-			if err != nil {
-				return p.error(read, err)
+			val, rerr := in.DecimalValue()
+			if rerr != nil {
+				return p.error(read, rerr)
 			}
 			err = p.out.WriteDecimal(val)
 
 		case ion.TimestampType:
-			val, err := in.TimestampValue()
-			if err != nil {
-				return p.error(read, err)
+			val, rerr := in.TimestampValue()
+			if rerr != nil {
+				return p.error(read, rerr)
 			}
 			err = p.out.WriteTimestamp(*val)
 
 		case ion.SymbolType:
-			val, err := in.SymbolValue()
-			if err != nil {
-				return p.error(read, err)
+			val, rerr := in.SymbolValue()
+			if rerr != nil {
+				return p.error(read, rerr)
 			}
 			if val != nil {
 				err = p.out.WriteSymbol(*val)
 			}
 
 		case ion.StringType:
-			val, err := in.StringValue()
-			if err != nil {
-				return p.error(read, err)
+			val, rerr := in.StringValue()
+			if rerr != nil {
+				return p.error(read, rerr)
 			}
 			if val != nil {
 				err = p.out.WriteString(*val)
 			}
 
 		case ion.ClobType:
-			val, err := in.ByteValue()
-			if err != nil {
-				return p.error(read, err)
+			val, rerr := in.ByteValue()
+			if rerr != nil {
+				return p.error(read, rerr)
 			}
 			err = p.out.WriteClob(val)
 
 		case ion.BlobType:
-			val, err := in.ByteValue()
-			if err != nil {
-				return p.error(read, err)
+			val, rerr := in.ByteValue()
+			if rerr != nil {
+				return p.error(read, rerr)
 			}
 			err = p.out.WriteBlob(val)
 
